@@ -24,6 +24,8 @@ import (
 
 var certDir string
 
+var inconclusiveCount int
+
 // Octets is a byte string that serialises to JSON as a string in which every
 // octet is the code point of the same value (Latin-1), so that replay files and
 // evidence samples stay readable and round-trip exactly.
@@ -388,6 +390,15 @@ func (s *subCheck[C]) eval(c C) Verdict {
 		}
 		st.mu.Unlock()
 		fmt.Fprintf(os.Stdout, "INCONCLUSIVE property=%s sub=%s %s\n", s.pid, s.sub, v.Inconclusive)
+		inconclusiveCount++
+		if inconclusiveCount >= 6 {
+			// watchdogs cost 20 s each: a run that keeps hitting them will not
+			// finish; give up (exit 2 in the driver), never a verdict
+			fmt.Fprintf(os.Stdout, "INCONCLUSIVE property=%s giving up after %d inconclusive cases\n", s.pid, inconclusiveCount)
+			st.count(s.pid, s.sub, cj, v)
+			st.flush()
+			os.Exit(3)
+		}
 	}
 	st.count(s.pid, s.sub, cj, v)
 	if v.Fail != "" {
